@@ -2,10 +2,12 @@
 package c16
 
 import (
+	"bytes"
 	"encoding/hex"
 	"fmt"
 	"net"
 	"os"
+	"sort"
 	"strings"
 	"sync/atomic"
 	"testing"
@@ -167,10 +169,32 @@ func genSession(t *rapid.T, c cfg) session {
 	passes := []string{"secret", "", "envpass", "nopass", "x", "wrong", "{env.VERIF_C16_PASS}"}
 	s.User = users[rapid.IntRange(0, len(users)-1).Draw(t, "user")]
 	s.Pass = passes[rapid.IntRange(0, len(passes)-1).Draw(t, "pass")]
-	if rapid.IntRange(0, 2).Draw(t, "goodPair") == 0 {
-		for u, p := range c.pairs() {
-			s.User, s.Pass = u, p
-			break
+	switch rapid.IntRange(0, 3).Draw(t, "pairKind") {
+	case 0:
+		// a pair the configuration accepts
+		if ps := c.pairs(); len(ps) > 0 {
+			us := make([]string, 0, len(ps))
+			for u := range ps {
+				us = append(us, u)
+			}
+			sort.Strings(us)
+			s.User = us[rapid.IntRange(0, len(us)-1).Draw(t, "goodUser")]
+			s.Pass = ps[s.User]
+		}
+	case 1:
+		// an entry exactly as configured, placeholders resolved - also the entries nobody can use (empty name)
+		if len(c.Creds) > 0 {
+			us := make([]string, 0, len(c.Creds))
+			for u := range c.Creds {
+				us = append(us, u)
+			}
+			sort.Strings(us)
+			u := us[rapid.IntRange(0, len(us)-1).Draw(t, "rawUser")]
+			s.User, s.Pass = resolve(u), resolve(c.Creds[u])
+			s.Auth = true
+			if !bytes.Contains(s.Methods, []byte{2}) {
+				s.Methods = append(s.Methods, 2)
+			}
 		}
 	}
 	if rapid.IntRange(0, 7).Draw(t, "truncate") == 0 {
